@@ -1,15 +1,19 @@
 #!/bin/bash
 # usage: seedtest.sh <dir with patch.diff> <tier> <check id>...
-# Applies a seeded property-breaking change to /repo, runs the given checks,
-# prints one line per check, and ALWAYS restores /repo's working tree.
+# Runs the given checks against a scratch worktree of /repo that carries the
+# seeded change (VERIF_REPO), so /repo itself is never modified; the worktree
+# is removed afterwards. Prints one line per check.
 set -u
-dir=$1; tier=$2; shift 2
+dir=$(cd "$1" && pwd); tier=$2; shift 2
 cd /verif
-if ! git -C /repo diff --quiet; then echo "seedtest: /repo has uncommitted changes, refusing"; exit 3; fi
-git -C /repo apply "$dir/patch.diff" || { echo "seedtest: patch does not apply"; exit 3; }
-trap 'git -C /repo checkout -- . ; git -C /repo clean -fdq' EXIT
+wt=$(mktemp -d /tmp/seedwt.XXXXXX); rmdir "$wt"
+git -C /repo worktree add -q --detach "$wt" HEAD || exit 3
+trap 'git -C /repo worktree remove --force "$wt"; rm -rf "$out_root"' EXIT
+git -C "$wt" apply "$dir/patch.diff" || { echo "seedtest: patch does not apply"; exit 3; }
+out_root=$(mktemp -d /tmp/seedout.XXXXXX)
+cp known_findings.json properties.jsonl "$out_root/"
 for id in "$@"; do
-  out=$(./run.sh $id $tier 2>&1); code=$?
-  first=$(echo "$out" | grep -A1 -m1 "^VIOLATION" | tail -1 | cut -c1-260)
-  echo "$id exit=$code :: $(echo "$out" | grep "$id $tier:" | sed 's/.*violations=/violations=/' | cut -c1-60) :: $first"
+  out=$(VERIF_REPO="$wt" VERIF_OUT="$out_root" ./run.sh $id $tier 2>&1); code=$?
+  first=$(echo "$out" | grep -A1 -m1 "^VIOLATION" | tail -1 | cut -c1-300)
+  echo "$id exit=$code :: $(echo "$out" | grep "$id $tier:" | sed 's/.*violations=/violations=/' | cut -c1-50) :: $first"
 done
